@@ -35,7 +35,7 @@ NOTE = (
 TECHNIQUE = "bounded model checking by symbolic execution: every operation sequence up to the bound is run on the real VarsManager with symbolic values (path forking on data-dependent branches), invariants decided by z3 per state"
 EXPLANATION = CLAIM
 FUNCTIONS = [
-    "tf_pwa/variable.py:VarsManager.add_real_var", "tf_pwa/variable.py:VarsManager.add_complex_var", "tf_pwa/variable.py:VarsManager.set_fix", "tf_pwa/variable.py:VarsManager.set_same",
+    "tf_pwa/variable.py:VarsManager.add_real_var", "tf_pwa/variable.py:VarsManager.set_same (merging of tie groups)", "tf_pwa/variable.py:VarsManager.add_complex_var", "tf_pwa/variable.py:VarsManager.set_fix", "tf_pwa/variable.py:VarsManager.set_same",
     "tf_pwa/variable.py:VarsManager.set_bound", "tf_pwa/variable.py:VarsManager.get", "tf_pwa/variable.py:VarsManager.set", "tf_pwa/variable.py:VarsManager.read",
     "tf_pwa/variable.py:VarsManager.get_all_dic", "tf_pwa/variable.py:VarsManager.get_all_val", "tf_pwa/variable.py:VarsManager.set_all", "tf_pwa/variable.py:VarsManager.refresh_vars",
     "tf_pwa/variable.py:VarsManager.rp2xy", "tf_pwa/variable.py:VarsManager.xy2rp", "tf_pwa/variable.py:VarsManager.std_polar", "tf_pwa/variable.py:VarsManager.standard_complex",
@@ -65,6 +65,15 @@ def jobs(tier, seed):
     chunk = 40 if tier == "quick" else 120
     out = [("histories", tuple(seqs[i : i + chunk])) for i in range(0, len(seqs), chunk)]
     out += [("std_range",), ("bound", "two"), ("bound", "lower"), ("bound", "upper"), ("bound", "custom")]
+    npairs = len(_tie_pairs())
+    tl = 3 if tier == "quick" else 4
+    tseqs = [s_ for n in range(1, tl + 1) for s_ in itertools.product(range(npairs), repeat=n)]
+    if tier != "quick":
+        import random
+
+        rnd = random.Random(seed + 16)
+        tseqs = [s_ for s_ in tseqs if len(s_) < 4] + rnd.sample([s_ for s_ in tseqs if len(s_) == 4], 3000)
+    out += [("ties", tuple(tseqs[i : i + 140])) for i in range(0, len(tseqs), 140)]
     return out
 
 
@@ -229,6 +238,70 @@ def job_histories(ss, seqs):
                     if polar_now:  # the representation right after this step (not at the end of the sequence)
                         ss.prove("vm.std_radius_nonneg[%s]" % stag, F, T.lt(r_after, T.ZERO), key="vm.std_radius." + nm, payload=pay, timeout=30, describe="after standardisation r >= 0")
     ss.note(name="vm.histories", states=max(states, 1), transitions=max(transitions, 1), sequences=len(seqs))
+
+
+TIE_NAMES = ["a", "b", "c", "d", "e"]
+
+
+def _tie_pairs():
+    return [(x, y) for i, x in enumerate(TIE_NAMES) for y in TIE_NAMES[i + 1:]]
+
+
+def job_ties(ss, seqs):
+    """every sequence of set_same calls (as a configuration with overlapping var_equal groups makes them), then one
+    assignment: all names connected by the ties read the assigned value, every other name keeps its own, each
+    connected group counts once among the free parameters"""
+    import tensorflow as tf
+    from tf_pwa.variable import VarsManager
+
+    pairs = _tie_pairs()
+    states = 0
+    for seq in seqs:
+        S.new_context()
+        vm = VarsManager(dtype=tf.float64)
+        init = {}
+        for n in TIE_NAMES:
+            vm.add_real_var(n, value=1.0)
+            init[n] = S.real("v_" + n)
+            vm.variables[n].assign(tensor_of(init[n]))
+        parent = {n: n for n in TIE_NAMES}
+
+        def find(x):
+            while parent[x] != x:
+                x = parent[x]
+            return x
+
+        for k in seq:
+            x, y = pairs[k]
+            vm.set_same([x, y])
+            parent[find(y)] = find(x)
+        comp = {n: find(n) for n in TIE_NAMES}
+        stag = "+".join("%s=%s" % pairs[k] for k in seq)
+        pay = lambda m, seq=seq: dict(kind="ties", seq=[list(pairs[k]) for k in seq], model={k_: float(v) for k_, v in m.items()})
+        # free list: one entry per connected group
+        tv = list(vm.trainable_vars)
+        groups = {}
+        for n in TIE_NAMES:
+            groups.setdefault(comp[n], []).append(n)
+        ok = len(set(tv)) == len(tv) and all(sum(1 for n in g if n in tv) == 1 for g in groups.values())
+        ss.concrete("ties.count_once[%s]" % stag, ok, key="ties.count_once", payload=pay({}), describe="each group of tied names counts exactly once among the free parameters")
+        # values before the assignment: every name of a group reads the same value
+        F = facts()
+        for g in groups.values():
+            for n in g[1:]:
+                ss.prove("ties.read_equal[%s,%s=%s]" % (stag, g[0], n), F, far(_val(vm, g[0]), _val(vm, n), 0), key="ties.read_equal", payload=pay, timeout=30, describe="tied names read the same value")
+        # one assignment through each name of the last tie: it reaches the whole group and nothing else
+        tgt = pairs[seq[-1]][1]
+        before = {n: _val(vm, n) for n in TIE_NAMES}
+        new = S.real("new")
+        vm.set(tgt, tensor_of(new))
+        for n in TIE_NAMES:
+            states += 1
+            if comp[n] == comp[tgt]:
+                ss.prove("ties.assign_reaches[%s,%s<-%s]" % (stag, n, tgt), F, far(_val(vm, n), new.t, 0), key="ties.assign", payload=pay, timeout=30, describe="an assignment to one tied name is read through every name tied to it")
+            else:
+                ss.prove("ties.assign_local[%s,%s]" % (stag, n), F, far(_val(vm, n), before[n], 0), key="ties.assign", payload=pay, timeout=30, describe="names outside the group keep their value")
+    ss.note(name="vm.ties", states=max(states, 1), transitions=max(states, 1), sequences=len(seqs))
 
 
 def job_std_range(ss):
